@@ -191,7 +191,7 @@ def _strip_end(r):
     return re.sub(r"(, n'est-ce pas)?[?!. ]*$", "", r) if not r.startswith("[[") else re.sub(r"(?<=\]\])(, n'est-ce pas)?[?!. ]*$", "", r)
 
 
-def canon_tokens(terms, text):
+def canon_tokens(terms, text, feats=False):
     """terminal list of the real library + detokenized text -> canonical tokens [kind, lemma, form, link];
     link is what detokenize wrote between a `lier` token and its successor ('-' or '-t-'), read back from the text"""
     toks = []
@@ -225,7 +225,15 @@ def canon_tokens(terms, text):
             toks.append(["NP", str(arg), "", link])
             continue
         lemma = t.lemma if isinstance(t.lemma, str) else str(t.lemma)
-        toks.append([t.constType, lemma, form, link])
+        tok = [t.constType, lemma, form, link]
+        if feats:
+            f = ""
+            if t.isA("V"):
+                f = t.getProp("t") or ""
+            elif t.isA("Pro"):
+                f = t.props.get("c") or ("tn" if "tn" in t.props else "")
+            tok.append(f)
+        toks.append(tok)
     return toks, end
 
 
@@ -249,7 +257,7 @@ def realize(spec, nota, both=True):
     try:
         try:
             terms, text = _run(P, spec, nota)
-            res["etoks"], res["eend"] = canon_tokens(terms, text)
+            res["etoks"], res["eend"] = canon_tokens(terms, text, True)
             res["text"] = text
             res["w"] = w.n
         except Exception as e:  # noqa: an exception is an output
@@ -268,3 +276,1216 @@ def realize(spec, nota, both=True):
     finally:
         sys.stderr = old
     return res
+
+
+# --------------------------------------------------------------------------------------------- wire format (model driver)
+
+def verb_wire(entry):
+    """what the model reads of a verb: lexicon entry + its conjugation table (None when the table is missing)"""
+    lex, rules = data()
+    tab = entry.get("tab")
+    table = rules["conjugation"].get(tab) if tab is not None else None
+    lemma = entry["lemma"].replace("œ", "oe").replace("æ", "ae")
+    if table is not None and not lemma.endswith(table["ending"]):
+        table = None     # Terminal.setLemma: "bad lexicon table" -> tab = None
+    return {"lemma": lemma, "aux": entry.get("aux", "av"), "pat": entry.get("pat"),
+            "table": None if table is None else {"ending": table["ending"], "t": table["t"]}}
+
+
+def _np_wire(a):
+    return [a["id"], a["g"], a["n"], bool(a.get("pro"))]
+
+
+def wire(spec, nota):
+    s = spec.get("subj")
+    if s is None:
+        sw = None
+    elif s["k"] == "pro":
+        sw = ["pro", s.get("var", "je") == "moi", s["pe"], s["n"], s["g"]]
+    else:
+        sw = ["np"] + _np_wire(s)
+    cs = []
+    for c in spec["comps"]:
+        if c["k"] == "dir":
+            cs.append(["dir"] + _np_wire(c["arg"]))
+        elif c["k"] == "pp":
+            cs.append(["pp", c["prep"]] + _np_wire(c["arg"]))
+        elif "lemma" in c:
+            cs.append(["cl", c["lemma"]])
+        else:
+            cs.append(["cl", c["c"], c["pe"], c["n"], c["g"]])
+    w = {"n": nota, "s": sw, "t": spec["t"], "c": cs, "y": spec.get("typ") or {}}
+    if spec.get("vpe") is not None:
+        w["vpe"] = spec["vpe"]
+    if spec.get("vn") is not None:
+        w["vn"] = spec["vn"]
+    return w
+
+
+def model_lines(items):
+    """items: list of (spec, nota) -> protocol lines batched by verb, and for each line the item indices"""
+    by_verb = {}
+    for i, (spec, nota) in enumerate(items):
+        by_verb.setdefault(spec["verb"]["lemma"], []).append(i)
+    lines, index = [], []
+    for lemma, idxs in by_verb.items():
+        vw = verb_wire(items[idxs[0]][0]["verb"])
+        for k in range(0, len(idxs), 400):
+            chunk = idxs[k:k + 400]
+            lines.append({"op": "clause", "verb": vw, "specs": [wire(items[i][0], items[i][1]) for i in chunk]})
+            index.append(chunk)
+    return lines, index
+
+
+def run_model(items, driver="drv_clausefr"):
+    lines, index = model_lines(items)
+    outs = core.run_driver(lines, driver)
+    res = [None] * len(items)
+    for o, idxs in zip(outs, index):
+        if "driver_error" in o:
+            raise core.Infra("driver error: %s" % o["driver_error"])
+        for i, r in zip(idxs, o["res"]):
+            res[i] = r
+    return res
+
+
+def impl_answer(a):
+    """the part of the implementation's answer that the model is compared with"""
+    if a["err"] is not None:
+        return {"err": a["err"], "toks": [], "end": ""}
+    return {"err": None, "toks": a["toks"], "end": re.sub(r"\s+", " ", a["end"]).strip()}
+
+
+# --------------------------------------------------------------------------------------------- direct oracle (C05)
+
+VOWELS = set("aeiouyàâäéèêëîïôöùûü")
+CLITIC_RANK = {"me": 1, "te": 1, "se": 1, "nous": 1, "vous": 1, "le": 2, "la": 2, "les": 2, "lui": 3, "leur": 3, "y": 4, "en": 5}
+FIN = {"p", "i", "f", "ps", "c", "s", "si"}
+
+
+def unelide(form):
+    f = form.lower()
+    if f.endswith("'"):
+        return {"m'": "me", "t'": "te", "s'": "se", "l'": "le", "n'": "ne", "j'": "je", "d'": "de", "qu'": "que"}.get(f, f)
+    return f
+
+
+def is_clitic(tok):
+    return tok[0] == "Pro" and (tok[4] in ("acc", "dat", "refl") or tok[1] in ("y", "en"))
+
+
+def neg_word(typ):
+    n = (typ or {}).get("neg")
+    if n in (None, False):
+        return None
+    return "pas" if n is True else n
+
+
+def expected_layers(spec):
+    """the verb lemmas of the nesting [modal] [être en train de] [être + pp] main, outermost first"""
+    typ = spec.get("typ") or {}
+    _, rules = data()
+    layers = []
+    if typ.get("mod"):
+        for k, v in rules["verb_option"]["modalityVerb"].items():
+            if k.startswith(typ["mod"]):
+                layers.append(("mod", v))
+                break
+    if typ.get("prog"):
+        layers.append(("prog", rules["verb_option"]["prog"]["aux"]))
+    if typ.get("pas"):
+        layers.append(("pas", "être"))
+    layers.append(("main", spec["verb"]["lemma"]))
+    return layers
+
+
+def oracle_c05(spec, nota, ans):
+    """the text of C05 evaluated on the tokens the implementation produced (etoks: [kind, lemma, form, link, feat]).
+    returns a list of (clause, detail) violations; independent of the model."""
+    if ans["err"] is not None:
+        return []
+    toks = ans["etoks"]
+    typ = spec.get("typ") or {}
+    out = []
+    if any(t[2].startswith("[[") for t in toks):
+        return []          # a morphology error: the clause was not realized (C01's business)
+    vidx = [i for i, t in enumerate(toks) if t[0] == "V"]
+    if not vidx:
+        return []
+    first = vidx[0]
+    ft = toks[first][4]
+    neg2 = neg_word(typ)
+    nes = [i for i, t in enumerate(toks) if t[0] == "Adv" and t[1] == "ne"]
+    # ---- negation
+    if neg2 is not None and ft in FIN | {"ip", "b"}:
+        npre = 0      # tokens of the interrogative prefix ("que", "par" "quoi", …) are not the negation
+        if typ.get("int"):
+            npre = 2 if toks[0][0] == "P" else 1
+        n2 = [i for i, t in enumerate(toks) if t[0] == "Q" and t[1] == neg2 and i >= npre]
+        if len(nes) != 1:
+            out.append(("ne_position", "count=%d" % len(nes)))
+        else:
+            i = nes[0]
+            j = i + 1
+            if ft == "b" and j < len(toks) and toks[j][0] == "Q" and toks[j][1] == neg2:
+                j += 1
+            while j < len(toks) and is_clitic(toks[j]):
+                j += 1
+            if j != first:
+                out.append(("ne_position" if ft != "b" else "neg_infinitive", "ne-not-before-clitics+first-verb"))
+            elif i > 0 and is_clitic(toks[i - 1]):
+                out.append(("ne_position", "clitic-before-ne"))
+        if len(n2) != 1:
+            out.append(("neg2_position_finite" if ft != "b" else "neg_infinitive", "count=%d" % len(n2)))
+        elif len(nes) == 1:
+            k = n2[0]
+            if ft == "b":
+                if k != nes[0] + 1:
+                    out.append(("neg_infinitive", "neg2-not-after-ne"))
+            else:
+                want = first + 1
+                if toks[first][3] != "" and first + 1 < len(toks) and toks[first + 1][0] == "Pro":
+                    want = first + 2
+                elif toks[first][3] != "":
+                    out.append(("neg2_position_finite", "hyphen-not-to-pronoun"))
+                if k != want:
+                    out.append(("neg2_position_finite", "neg2-at-%+d" % (k - first)))
+    elif neg2 is None and nes:
+        out.append(("ne_position", "ne-without-neg"))
+    # ---- nesting, one finite verb
+    layers = expected_layers(spec)
+    T = spec["t"]
+    compound = T in TENSES_COMPOUND
+    seq = [(toks[i][1], toks[i][4]) for i in vidx]
+    fin = [i for i, (l, t) in enumerate(seq) if t in FIN or t == "ip"]
+    auxT = {"pc": "p", "pq": "i", "cp": "c", "pa": "ps", "fa": "f", "spa": "s", "spq": "si", "bp": "b"}
+    headT = auxT[T] if compound else T
+    if headT in FIN or headT == "ip":
+        if fin != [0] and not (typ.get("pas") and T == "ip" and [seq[i][1] for i in fin] == ["s"] and fin == [0]):
+            out.append(("one_finite_verb", "finite-at-%s" % fin))
+    else:
+        if fin:
+            out.append(("one_finite_verb", "finite-in-nonfinite-clause"))
+    exp = []
+    for k, (kind, lemma) in enumerate(layers):
+        if k == 0:
+            if compound:
+                exp.append(("AUX", None))
+                exp.append((lemma, "pp"))
+            else:
+                exp.append((lemma, None))
+        else:
+            exp.append((lemma, "pp" if layers[k - 1][0] == "pas" else "b"))
+    ok = len(exp) == len(seq)
+    if ok:
+        for (el, et), (l, t) in zip(exp, seq):
+            if el == "AUX":
+                if l not in ("avoir", "être"):
+                    ok = False
+            elif el != l and not (el == "être" and l == "avoir"):
+                ok = False
+            if et is not None and t != et and not (et == "pp" and t in TENSES_COMPOUND + ["pp"]):
+                ok = False
+    if not ok:
+        out.append(("nesting_order", "got=%s" % "+".join("%s" % t for _, t in seq)))
+    # ---- clitics
+    # the clitics of a positive imperative follow it; under a modality / progressive auxiliary the complements
+    # belong to the infinitive and precede it
+    pos_imp = (ft == "ip" and neg2 is None and not typ.get("mod") and not typ.get("prog") and not typ.get("pas"))
+    for i, t in enumerate(toks):
+        if not is_clitic(t):
+            continue
+        j = i
+        if pos_imp and i > first:
+            # after the verb, only clitics between
+            k = i - 1
+            while k > first and is_clitic(toks[k]):
+                k -= 1
+            if k != first:
+                cause = "after-prep" if any(x[0] == "P" for x in toks[first:i]) else "other"
+                out.append(("imperative_pos_clitics_after", "clitic-not-adjacent:%s:%s" % (CL_CLASS.get(unelide(t[2]), "?"), cause)))
+            continue
+        while j < len(toks) and is_clitic(toks[j]):
+            j += 1
+        if j >= len(toks) or toks[j][0] != "V":
+            cause = "after-prep" if any(x[0] == "P" for x in toks[first:i]) else ("before-all-verbs" if i < first else "other")
+            out.append(("clitic_order", "clitic-not-preverbal:%s:%s" % (CL_CLASS.get(unelide(t[2]), "?"), cause)))
+        elif pos_imp and j == first:
+            out.append(("imperative_pos_clitics_after", "clitic-before-imperative"))
+    i = 0
+    while i < len(toks):
+        if is_clitic(toks[i]):
+            j = i
+            while j < len(toks) and is_clitic(toks[j]):
+                j += 1
+            run = [unelide(t[2]) for t in toks[i:j]]
+            if j < len(toks) and toks[j][0] == "V":
+                ranks = [CLITIC_RANK.get(r, 9) for r in run]
+                for a, b, ra, rb in zip(run, run[1:], ranks, ranks[1:]):
+                    if ra > rb:
+                        out.append(("clitic_order", "%s>%s" % (CL_CLASS.get(a, "?"), CL_CLASS.get(b, "?"))))
+                        break
+            i = j
+        else:
+            i += 1
+    # ---- inversion
+    for i, t in enumerate(toks[:-1]):
+        if t[3] == "":
+            continue
+        nxt = toks[i + 1]
+        f = t[2].lower()
+        if t[0] == "V" and f and nxt[0] == "Pro":
+            p = nxt[2].lower()
+            if f[-1] in VOWELS and p in ("il", "elle", "on") and t[3] != "-t-":
+                out.append(("inversion_t_iff", "vowel-final-without-t"))
+            if t[3] == "-t-" and (p not in ("il", "elle", "on") or f[-1] in "dt"):
+                out.append(("inversion_t_iff", "t-after-%s" % ("dt" if f[-1] in "dt" else "other-pronoun")))
+    # ---- interrogative prefix / est-ce que / inversion
+    it = typ.get("int")
+    if it:
+        _, rules = data()
+        pref = rules["sentence_type"]["int"]["prefix"][it]
+        words = [t[1] if t[0] in ("Q", "P") else None for t in toks[:3]]
+        if pref != "":
+            head = " ".join(w for w in words[:2] if w)
+            first_q = words[0]
+            ok = first_q == pref
+            if it in ("woi", "wai") and first_q is not None and first_q.endswith(" qui" if it == "woi" else " quoi"):
+                ok = True
+            if it in ("wod", "wad") and words[0] == "par" and words[1] in ("qui", "quoi", "que"):
+                ok = True
+            if not ok:
+                out.append(("estceque_cases", "prefix:%s" % it))
+        if not typ.get("pas") and it not in ("wos", "was", "tag") and spec.get("subj") is not None:
+            sub = spec["subj"]
+            has_est = any(t[0] == "Q" and t[1] == "est-ce que" for t in toks)
+            inverted = toks[first][3] != "" and first + 1 < len(toks) and toks[first + 1][0] == "Pro"
+            acad = ["avoir", "dire", "devoir", "faire", "pouvoir", "savoir", "être", "aller", "vouloir", "voir"]
+            je1 = sub["k"] == "pro" and sub["pe"] == 1 and sub["n"] == "s"
+            want_est = (sub["k"] == "np" and not sub.get("pro") and it in ("wod", "wad")) or \
+                       (je1 and toks[first][4] == "p" and toks[first][1] not in acad)
+            if want_est and (not has_est or inverted):
+                out.append(("estceque_cases", "expected-est-ce-que"))
+            if not want_est and (has_est or not inverted):
+                out.append(("estceque_cases", "expected-inversion"))
+    return out
+
+
+CL_CLASS = {"me": "me", "te": "me", "se": "me", "nous": "me", "vous": "me", "le": "le", "la": "le", "les": "le",
+            "lui": "lui", "leur": "lui", "y": "y", "en": "en"}
+
+
+# --------------------------------------------------------------------------------------------- generator
+
+KINDS = ["dir", "a", "de", "loc", "oth"]
+LOC_PREPS = ["sur", "vers", "dans"]
+OTH_PREPS = ["avec", "pour", "chez", "sans"]
+SUBJECTS = ([{"k": "pro", "var": v, "pe": pe, "n": n, "g": g} for v in ("je", "moi") for pe in (1, 2, 3) for n in "sp" for g in "mf"]
+            + [{"k": "np", "id": 0, "noun": noun, "g": g, "n": n, "pro": pro} for (noun, g) in NOUNS[:6] for n in "sp" for pro in (False, True)])
+
+
+def mk_comp(kind, style, rng, idn):
+    """one complement: kind in KINDS, style in full|pro|cl"""
+    noun, g = rng.choice(NOUNS)
+    n = rng.choice("sp")
+    if style == "cl" and kind != "oth":
+        if kind == "dir":
+            return {"k": "cl", "c": "acc", "pe": rng.choice([1, 2, 3, 3]), "n": n, "g": g}
+        if kind == "a":
+            return {"k": "cl", "c": "dat", "pe": rng.choice([1, 2, 3, 3]), "n": n, "g": g}
+        return {"k": "cl", "lemma": "en" if kind == "de" else "y"}
+    arg = {"k": "np", "id": idn, "noun": noun, "g": g, "n": n, "pro": style != "full"}
+    if kind == "dir":
+        return {"k": "dir", "arg": arg}
+    prep = {"a": "à", "de": "de"}.get(kind) or rng.choice(LOC_PREPS if kind == "loc" else OTH_PREPS)
+    return {"k": "pp", "prep": prep, "arg": arg}
+
+
+def comp_kind(c):
+    if c["k"] == "dir":
+        return "dir"
+    if c["k"] == "cl":
+        return {"acc": "dir", "dat": "a"}.get(c.get("c")) or ("de" if c.get("lemma") == "en" else "loc")
+    return {"à": "a", "de": "de"}.get(c["prep"]) or ("loc" if c["prep"] in LOC_PREPS else "oth")
+
+
+def comp_style(c):
+    if c["k"] == "cl":
+        return "cl"
+    return "pro" if c["arg"].get("pro") else "full"
+
+
+def mk_comps(rng, arrangement, pas=False):
+    """arrangement: list of (kind, style); a canonical passive keeps the direct object first"""
+    arr = list(arrangement)
+    if pas:
+        # a canonical passive has a direct object, first among the complements (Phrase.passivate takes the first
+        # NP or Pro of the VP as the object)
+        if not any(k == "dir" for k, _ in arr):
+            arr.insert(0, ("dir", rng.choice(["full", "pro", "cl"])))
+        arr.sort(key=lambda ks: 0 if ks[0] == "dir" else 1)
+    return [mk_comp(k, s, rng, i + 1) for i, (k, s) in enumerate(arr)]
+
+
+def rand_arrangement(rng, maxk=3, pro_bias=0.6):
+    k = rng.choice([0, 1, 1, 2, 2, 2, 3, 3][:2 + 2 * maxk])
+    kinds = rng.sample(KINDS, min(k, len(KINDS)))
+    res = []
+    for kd in kinds:
+        r = rng.random()
+        style = "pro" if r < pro_bias else ("cl" if r < pro_bias + 0.15 and kd != "oth" else "full")
+        res.append((kd, style))
+    return res
+
+
+def mk_spec(rng, verb, t, typ, subj=None, arrangement=None):
+    typ = {k: v for k, v in typ.items() if v not in (None, False)}
+    if t == "ip":
+        subj = None
+        typ.pop("int", None)
+    elif subj is None:
+        subj = dict(rng.choice(SUBJECTS))
+    if arrangement is None:
+        arrangement = rand_arrangement(rng)
+    spec = {"subj": subj, "verb": verb_entry(verb) if isinstance(verb, str) else verb, "t": t,
+            "comps": mk_comps(rng, arrangement, bool(typ.get("pas"))), "typ": typ}
+    if t == "ip":
+        spec["vpe"], spec["vn"] = rng.choice([(2, "s"), (1, "p"), (2, "p"), (2, "s"), (2, "p"), (1, "s")])
+    return spec
+
+
+def rand_typ(rng):
+    typ = {}
+    if rng.random() < 0.5:
+        typ["neg"] = rng.choice(negs())
+    if rng.random() < 0.25:
+        typ["pas"] = True
+    if rng.random() < 0.25:
+        typ["prog"] = True
+    if rng.random() < 0.3:
+        typ["mod"] = rng.choice(MODS)
+    if rng.random() < 0.25:
+        typ["refl"] = True
+    if rng.random() < 0.5:
+        typ["int"] = rng.choice(INTS)
+    return typ
+
+
+def all_verbs():
+    lex, rules = data()
+    return sorted(k for k, v in lex.items() if "V" in v and v["V"].get("tab") in rules["conjugation"])
+
+
+def neg_classes(rng):
+    """none / True / one lexical negation (drawn)"""
+    return [None, True, rng.choice(data()[1]["verb_option"]["neg"]["autres"])]
+
+
+def gen_specs(rng, tier):
+    """the specifications of one run (each is realized in both notations).  Strata (DESIGN Appendix C):
+    F flag product x panel verb, O clitic arrangements (every order), V every lexicon verb, R random."""
+    specs = []
+    quick = tier != "thorough"
+    tenses = TENSES
+    # F: complete flag product  tense x neg-class x pas x prog x mod-class x refl x int  (19*3*2*2*3*2*14 = 19152)
+    fl = []
+    for t in tenses:
+        for negc in range(3):
+            for pas in (False, True):
+                for prog in (False, True):
+                    for modc in range(3):
+                        for refl in (False, True):
+                            for it in [None] + INTS:
+                                fl.append((t, negc, pas, prog, modc, refl, it))
+    if quick:
+        fl = rng.sample(fl, 6500)
+        per = 1
+    else:
+        per = 26
+    autres = data()[1]["verb_option"]["neg"]["autres"]
+    for (t, negc, pas, prog, modc, refl, it) in fl:
+        for r in range(per):
+            neg = [None, True, autres[rng.randrange(len(autres))]][negc]
+            mod = [None, rng.choice(["poss", "perm"]), rng.choice(["nece", "obli", "will"])][modc]
+            verb = PANEL[r % len(PANEL)] if not quick else rng.choice(PANEL)
+            specs.append(mk_spec(rng, verb, t, {"neg": neg, "pas": pas, "prog": prog, "mod": mod, "refl": refl, "int": it}))
+    # O: every ordered arrangement of pronominalized complements (and mixed with full ones), crossed with the
+    #    tense classes and the flags that change the placement
+    arrs = []
+    for k in range(0, 5):
+        for kinds in itertools.permutations(["dir", "a", "de", "loc"], k):
+            arrs.append([(kd, "pro") for kd in kinds])
+    mixed = []
+    for k in range(1, 4):
+        for kinds in itertools.permutations(KINDS, k):
+            for styles in itertools.product(["full", "pro", "cl"], repeat=k):
+                if all(s == "pro" for s in styles) and "oth" not in kinds:
+                    continue
+                if any(s == "cl" and kd == "oth" for kd, s in zip(kinds, styles)):
+                    continue
+                mixed.append(list(zip(kinds, styles)))
+    octx = []
+    for t in ["p", "pc", "ip", "b", "f", "spq"]:
+        for neg in [None, True, "plus"]:
+            for mod in [None, "poss"]:
+                for prog in (False, True):
+                    for it in [None, "yon", "why"]:
+                        octx.append((t, neg, mod, prog, it))
+    if quick:
+        for arr in arrs:
+            for c in rng.sample(octx, 18):
+                specs.append(mk_spec(rng, rng.choice(PANEL), c[0], {"neg": c[1], "mod": c[2], "prog": c[3], "int": c[4], "refl": rng.random() < 0.15}, arrangement=arr))
+        for arr in rng.sample(mixed, min(1200, len(mixed))):
+            c = rng.choice(octx)
+            specs.append(mk_spec(rng, rng.choice(PANEL), c[0], {"neg": c[1], "mod": c[2], "prog": c[3], "int": c[4]}, arrangement=arr))
+    else:
+        for arr in arrs:
+            for c in octx:
+                for rep in range(4):
+                    specs.append(mk_spec(rng, rng.choice(PANEL), c[0], {"neg": c[1], "mod": c[2], "prog": c[3], "int": c[4], "refl": rep == 3}, arrangement=arr))
+        for arr in mixed:
+            for c in rng.sample(octx, 12):
+                specs.append(mk_spec(rng, rng.choice(PANEL), c[0], {"neg": c[1], "mod": c[2], "prog": c[3], "int": c[4]}, arrangement=arr))
+    # V: samples across all lexicon verbs
+    verbs = all_verbs()
+    if quick:
+        verbs = rng.sample(verbs, 1500)
+    for vb in verbs:
+        for r in range(1 if quick else 10):
+            specs.append(mk_spec(rng, vb, rng.choice(tenses), rand_typ(rng)))
+    # R: random
+    for r in range(4000 if quick else 60000):
+        specs.append(mk_spec(rng, rng.choice(PANEL), rng.choice(tenses), rand_typ(rng)))
+    return specs
+
+
+# --------------------------------------------------------------------------------------------- signatures, shrinking
+
+CLOSED_VERBS = ["être", "avoir", "pouvoir", "devoir", "vouloir"]
+
+
+def verb_class(v):
+    if v["lemma"] in CLOSED_VERBS:
+        return v["lemma"]
+    pat = v.get("pat")
+    cl = "V:" + str(v.get("aux"))
+    if pat is None:
+        return cl + ":nopat"
+    if pat == ["réfl"]:
+        return cl + ":ess-refl"
+    if "réfl" in pat:
+        cl += ":refl"
+    return cl
+
+
+def abstract(spec):
+    """a specification with its lexical items replaced by their class (what a finding signature shows)"""
+    s = spec.get("subj")
+    if s is None:
+        sa = "none(%s%s)" % (spec.get("vpe"), spec.get("vn"))
+    elif s["k"] == "pro":
+        sa = "pro:%s:%d%s%s" % (s.get("var", "je"), s["pe"], s["n"], s["g"])
+    else:
+        sa = "np:%s%s%s" % (s["g"], s["n"], ".pro" if s.get("pro") else "")
+    cs = []
+    for c in spec["comps"]:
+        k, st = comp_kind(c), comp_style(c)
+        extra = ""
+        if c["k"] == "cl" and "c" in c:
+            extra = ":%d%s%s" % (c["pe"], c["n"], c["g"])
+        elif c["k"] != "cl":
+            extra = ":%s%s" % (c["arg"]["g"], c["arg"]["n"])
+            if c["k"] == "pp" and k in ("loc", "oth"):
+                extra += ":" + c["prep"]
+        cs.append("%s.%s%s" % (k, st, extra))
+    typ = spec.get("typ") or {}
+    ty = ",".join("%s=%s" % (k, typ[k]) for k in sorted(typ))
+    return "t=%s|subj=%s|verb=%s|comps=[%s]|typ={%s}" % (spec["t"], sa, verb_class(spec["verb"]), ",".join(cs), ty)
+
+
+TENSE_ORDER = ["p", "pc", "b", "bp", "ip", "i", "f", "c", "s", "ps", "si", "pr", "pp", "pq", "fa", "cp", "pa", "spa", "spq"]
+
+
+def shrink_candidates(spec):
+    """smaller / more canonical variants of a specification, most drastic first"""
+    out = []
+
+    def w(**kw):
+        d = dict(spec)
+        d.update(kw)
+        return d
+    typ = spec.get("typ") or {}
+    for i in range(len(spec["comps"])):
+        out.append(w(comps=spec["comps"][:i] + spec["comps"][i + 1:]))
+    for k in sorted(typ):
+        out.append(w(typ={a: b for a, b in typ.items() if a != k}))
+    if typ.get("neg") not in (None, True):
+        out.append(w(typ=dict(typ, neg=True)))
+    if typ.get("mod") not in (None, "poss"):
+        out.append(w(typ=dict(typ, mod="poss")))
+    if typ.get("int") not in (None, "yon"):
+        out.append(w(typ=dict(typ, int="yon")))
+    if spec["t"] != "ip":
+        for t in TENSE_ORDER[:TENSE_ORDER.index(spec["t"])]:
+            if t != "ip":
+                out.append(w(t=t))
+    else:
+        d = w(t="p", subj={"k": "pro", "var": "je", "pe": 3, "n": "s", "g": "m"})
+        d.pop("vpe", None)
+        d.pop("vn", None)
+        out.append(d)
+    s = spec.get("subj")
+    if s is not None:
+        canon = {"k": "pro", "var": "je", "pe": 3, "n": "s", "g": "m"}
+        if s != canon:
+            out.append(w(subj=canon))
+            if s["k"] == "pro":
+                for key, val in (("var", "je"), ("pe", 3), ("n", "s"), ("g", "m")):
+                    if s.get(key) != val:
+                        out.append(w(subj=dict(s, **{key: val})))
+            else:
+                if s.get("pro"):
+                    out.append(w(subj=dict(s, pro=False)))
+                for key, val in (("n", "s"), ("g", "m")):
+                    if s.get(key) != val:
+                        out.append(w(subj=dict(s, noun="chat", **{key: val})))
+    else:
+        if (spec.get("vpe"), spec.get("vn")) != (2, "s"):
+            out.append(w(vpe=2, vn="s"))
+    for i, c in enumerate(spec["comps"]):
+        def rep(nc):
+            return w(comps=spec["comps"][:i] + [nc] + spec["comps"][i + 1:])
+        kd = comp_kind(c)
+        if c["k"] == "cl":
+            noun_arg = {"k": "np", "id": i + 1, "noun": "chat", "g": "m", "n": "s", "pro": True}
+            if kd == "dir":
+                out.append(rep({"k": "dir", "arg": noun_arg}))
+            else:
+                out.append(rep({"k": "pp", "prep": {"a": "à", "de": "de", "loc": "dans"}[kd], "arg": noun_arg}))
+            if c.get("c") == "acc" and c["pe"] in (1, 2) and "a" not in [comp_kind(x) for x in spec["comps"]]:
+                out.append(rep(dict(c, c="dat")))       # me/te/nous/vous: the same clitic whatever its function
+            if "c" in c and (c["pe"], c["n"], c["g"]) != (1, "s", "m"):
+                out.append(rep(dict(c, pe=1, n="s", g="m")))
+                if c["n"] != "s":
+                    out.append(rep(dict(c, n="s")))
+                if c["g"] != "m":
+                    out.append(rep(dict(c, g="m")))
+        else:
+            a = c["arg"]
+            if (a["noun"], a["g"], a["n"]) != ("chat", "m", "s"):
+                out.append(rep(dict(c, arg=dict(a, noun="chat", g="m", n="s"))))
+                if a["n"] != "s":
+                    out.append(rep(dict(c, arg=dict(a, n="s"))))
+                if a["g"] != "m":
+                    out.append(rep(dict(c, arg=dict(a, noun="chat", g="m"))))
+            if c["k"] == "pp" and not a.get("pro") and c["prep"] != "avec" and "oth" not in [comp_kind(x) for x in spec["comps"]]:
+                out.append(rep(dict(c, prep="avec")))      # a full PP: only the presence of a preposition matters
+            if a.get("pro"):
+                out.append(rep(dict(c, arg=dict(a, pro=False))))     # a full noun phrase where the pronoun is not needed
+            if c["k"] == "pp" and kd == "loc" and c["prep"] != "dans":
+                out.append(rep(dict(c, prep="dans")))
+            if c["k"] == "pp" and kd == "oth" and c["prep"] != "avec":
+                out.append(rep(dict(c, prep="avec")))
+    if spec["verb"]["lemma"] != "manger":
+        out.append(w(verb=verb_entry("manger")))
+        for v in PANEL:
+            if v != spec["verb"]["lemma"] and PANEL.index(v) < (PANEL.index(spec["verb"]["lemma"]) if spec["verb"]["lemma"] in PANEL else 99):
+                out.append(w(verb=verb_entry(v)))
+    return out
+
+
+def canonical(spec):
+    """is the specification inside the canonical-clause fragment the generator draws from?"""
+    typ = spec.get("typ") or {}
+    if (spec["t"] == "ip") != (spec.get("subj") is None):
+        return False
+    if spec.get("subj") is None and typ.get("int"):
+        return False
+    if (spec.get("vpe") is not None or spec.get("vn") is not None) and spec["t"] != "ip":
+        return False
+    kinds = [comp_kind(c) for c in spec["comps"]]
+    if len(set(kinds)) != len(kinds):
+        return False
+    if typ.get("pas") and (not kinds or kinds[0] != "dir"):
+        return False
+    return True
+
+
+def shrink(spec, fails, budget=400):
+    """delta debugging on the specification: the first candidate that still fails is taken, until none does"""
+    cur = spec
+    n = 0
+    progress = True
+    while progress and n < budget:
+        progress = False
+        for cand in shrink_candidates(cur):
+            if not canonical(cand):
+                continue
+            n += 1
+            if n > budget:
+                break
+            try:
+                ok = fails(cand)
+            except Exception:  # noqa
+                ok = False
+            if ok:
+                cur = cand
+                progress = True
+                break
+    return cur
+
+
+def c05_keys(spec, answers=None, notas=("dep", "phrase")):
+    """{(clause, detail, notation)} violated by one specification, on the real library"""
+    res = set()
+    for nota in notas:
+        a = answers[nota] if answers else realize(spec, nota, both=False)
+        for cl, det in oracle_c05(spec, nota, a):
+            res.add((cl, det, nota))
+    return res
+
+
+def c05_signature(spec, clause, detail, nota):
+    """shrinks `spec` keeping the same violated clause/detail in notation `nota`; the signature names the notations in
+    which the shrunk specification fails that way"""
+    def fails(sp):
+        return (clause, detail, nota) in c05_keys(sp, notas=(nota,))
+    small = shrink(spec, fails)
+    notas = "+".join(sorted(n for (c, d, n) in c05_keys(small) if (c, d) == (clause, detail)))
+    return "fr|%s|%s:%s|%s" % (notas, clause, detail, abstract(small)), small, notas
+
+
+# ---- C08 (French half): the two notations realize the same text
+
+def tok_class(tok, idx, neg2=None):
+    """class of a realized token for disagreement signatures (lexical items abstracted)"""
+    k, lemma, form = tok[0], tok[1], tok[2]
+    feat = tok[4] if len(tok) > 4 else ""
+    if form.startswith("[["):
+        return k + ".morpho"
+    if k == "V":
+        cl = lemma if lemma in ("être", "avoir") else ("modal" if lemma in ("pouvoir", "devoir", "vouloir") else "main")
+        return "V.%s.%s" % (cl, feat)
+    if k == "Pro":
+        return "Pro.%s" % (lemma if lemma in ("y", "en") else (feat or "plain"))
+    if k == "Q":
+        if lemma == "est-ce que":
+            return "Q.est-ce-que"
+        if neg2 is not None and lemma == neg2 and idx > 0:
+            return "Q.neg2"
+        if lemma in ("en train", "de"):
+            return "Q.prog"
+        return "Q.prefix" if idx < 2 else "Q.other"
+    if k == "P":
+        return "P.par" if lemma == "par" else "P"
+    if k == "Adv":
+        return "Adv." + lemma
+    return k
+
+
+def c08_key(spec, answers=None):
+    """None when the two notations agree, else the class of the FIRST difference between the two token lists"""
+    a = answers["phrase"] if answers else realize(spec, "phrase", both=False)
+    b = answers["dep"] if answers else realize(spec, "dep", both=False)
+    if a["err"] or b["err"]:
+        if a["err"] == b["err"]:
+            return None
+        return "err:phrase=%s,dep=%s" % (a["err"], b["err"])
+    if a["text"] == b["text"]:
+        return None
+    if "[[" in a["text"] and "[[" in b["text"]:
+        return None      # both sides failed to inflect a verb: the clause was not realized (C01's business)
+    neg2 = neg_word(spec.get("typ"))
+    ta, tb = a["etoks"], b["etoks"]
+    for i in range(max(len(ta), len(tb))):
+        if i >= len(ta):
+            return "phrase:end/dep:%s" % tok_class(tb[i], i, neg2)
+        if i >= len(tb):
+            return "phrase:%s/dep:end" % tok_class(ta[i], i, neg2)
+        if ta[i][:4] != tb[i][:4]:
+            ca, cb = tok_class(ta[i], i, neg2), tok_class(tb[i], i, neg2)
+            if ca == cb:
+                what = "lemma" if ta[i][1] != tb[i][1] else ("form" if ta[i][2] != tb[i][2] else "link")
+                return "%s:%s" % (what, ca)
+            return "phrase:%s/dep:%s" % (ca, cb)
+    return "punctuation"
+
+
+def c08_signature(spec, key=None):
+    """shrinks a specification on which the two notations disagree (any disagreement)"""
+    def fails(sp):
+        return c08_key(sp) is not None
+    small = shrink(spec, fails)
+    return "fr|phrase≠dep|" + abstract(small), small
+
+
+# ---- small-scope exploration: every specification that differs from the base clause « il mange » in at most
+#      three features is realized in both notations on each run; the minimal disagreeing ones are the ROOTS
+
+TENSE_CLASS = {"p": "fin", "i": "fin", "f": "fin", "ps": "fin", "c": "fin", "s": "fin", "si": "fin",
+               "pc": "cfin", "pq": "cfin", "cp": "cfin", "pa": "cfin", "fa": "cfin", "spa": "cfin", "spq": "cfin",
+               "b": "b", "bp": "bp", "ip": "ip", "pr": "pr", "pp": "pp"}
+BASE_SUBJ = {"k": "pro", "var": "je", "pe": 3, "n": "s", "g": "m"}
+
+
+def _np(i, g="m", n="s", pro=False):
+    return {"k": "np", "id": i, "noun": "chat", "g": g, "n": n, "pro": pro}
+
+
+BASES = {"pro": BASE_SUBJ, "np": _np(0), "pro3f": dict(BASE_SUBJ, g="f"), "pro3p": dict(BASE_SUBJ, n="p"),
+         "np.f": _np(0, "f"), "np.p": _np(0, "m", "p")}
+
+
+def small_atoms():
+    """(dimension, label, payload) — one atom = one way of leaving the base clause"""
+    atoms = []
+    for t in ("pc", "b", "bp", "ip", "pr", "pp"):
+        atoms.append(("tense", t, t))
+    subs = {"pro1s": dict(BASE_SUBJ, pe=1), "pro2s": dict(BASE_SUBJ, pe=2), "pro3p": dict(BASE_SUBJ, n="p"),
+            "pro3f": dict(BASE_SUBJ, g="f"), "moi3s": dict(BASE_SUBJ, var="moi"), "moi1s": dict(BASE_SUBJ, var="moi", pe=1),
+            "np": _np(0), "np.f": _np(0, "f"), "np.p": _np(0, "m", "p"), "np.pro": _np(0, pro=True)}
+    for k, v in subs.items():
+        atoms.append(("subj", k, v))
+    for v in ("être", "avoir", "pouvoir", "devoir", "aller", "enfuir", "aimer", "pleuvoir"):
+        atoms.append(("verb", v, v))
+    comps = {"dir.full": {"k": "dir", "arg": _np(1)}, "dir.full.f": {"k": "dir", "arg": _np(1, "f")},
+             "dir.full.p": {"k": "dir", "arg": _np(1, "m", "p")}, "dir.pro": {"k": "dir", "arg": _np(1, pro=True)},
+             "dir.pro.f": {"k": "dir", "arg": _np(1, "f", pro=True)}, "dir.pro.p": {"k": "dir", "arg": _np(1, "m", "p", True)},
+             "dir.cl1": {"k": "cl", "c": "acc", "pe": 1, "n": "s", "g": "m"}, "dir.cl3": {"k": "cl", "c": "acc", "pe": 3, "n": "s", "g": "m"},
+             "a.full": {"k": "pp", "prep": "à", "arg": _np(2)}, "a.pro": {"k": "pp", "prep": "à", "arg": _np(2, pro=True)},
+             "a.cl1": {"k": "cl", "c": "dat", "pe": 1, "n": "s", "g": "m"}, "a.cl3": {"k": "cl", "c": "dat", "pe": 3, "n": "s", "g": "m"},
+             "de.full": {"k": "pp", "prep": "de", "arg": _np(3)}, "de.pro": {"k": "pp", "prep": "de", "arg": _np(3, pro=True)},
+             "de.cl": {"k": "cl", "lemma": "en"},
+             "loc.full": {"k": "pp", "prep": "dans", "arg": _np(4)}, "loc.pro": {"k": "pp", "prep": "dans", "arg": _np(4, pro=True)},
+             "loc.cl": {"k": "cl", "lemma": "y"},
+             "oth.full": {"k": "pp", "prep": "avec", "arg": _np(5)}, "oth.pro": {"k": "pp", "prep": "avec", "arg": _np(5, pro=True)}}
+    for k, v in comps.items():
+        atoms.append(("comp:" + k.split(".")[0], k, v))
+    for k, v in (("neg", True), ("neg", "plus"), ("pas", True), ("prog", True), ("refl", True),
+                 ("mod", "poss"), ("mod", "nece"), ("mod", "will")):
+        atoms.append(("typ:" + k, "%s=%s" % (k, v), (k, v)))
+    for it in INTS:
+        atoms.append(("typ:int", "int=" + it, ("int", it)))
+    return atoms
+
+
+def build_small(choice, base="pro"):
+    """the specification that leaves the base clause by the given atoms (complements in the order given)"""
+    spec = {"subj": json.loads(json.dumps(BASES[base])), "verb": verb_entry("manger"), "t": "p", "comps": [], "typ": {}}
+    for dim, label, payload in choice:
+        if dim == "tense":
+            spec["t"] = payload
+        elif dim == "subj":
+            spec["subj"] = dict(payload)
+        elif dim == "verb":
+            spec["verb"] = verb_entry(payload)
+        elif dim.startswith("comp:"):
+            spec["comps"] = spec["comps"] + [json.loads(json.dumps(payload))]
+        else:
+            spec["typ"] = dict(spec["typ"], **{payload[0]: payload[1]})
+    if spec["t"] == "ip":
+        if any(d == "subj" for d, _, _ in choice) or spec["typ"].get("int"):
+            return None
+        spec["subj"] = None
+        spec["vpe"], spec["vn"] = 2, "s"
+    return spec if canonical(spec) else None
+
+
+def small_specs(maxk=3, base="pro", need_tense=False):
+    """[(labels, spec)] for every choice of at most `maxk` atoms of distinct dimensions; the complements in every order.
+    base "pro": « il mange » ; base "np": « le chat mange » (labels start with "np")"""
+    atoms = small_atoms()
+    if base != "pro":
+        atoms = [a for a in atoms if a[0] != "subj"]
+    res = []
+    seen = set()
+    for k in range(0, maxk + 1):
+        for combo in itertools.combinations(atoms, k):
+            dims = [c[0] for c in combo]
+            if len(set(dims)) != len(dims):
+                continue
+            if need_tense and "tense" not in dims:
+                continue
+            comps = [c for c in combo if c[0].startswith("comp:")]
+            rest = [c for c in combo if not c[0].startswith("comp:")]
+            for perm in itertools.permutations(comps):
+                choice = rest + list(perm)
+                spec = build_small(choice, base)
+                if spec is None:
+                    continue
+                if base != "pro" and spec["subj"] is None:
+                    continue
+                labels = (() if base == "pro" else (base,)) + tuple(sorted(c[1] for c in rest)) + tuple(c[1] for c in perm)
+                key = core.canon(spec)
+                if key in seen:
+                    continue
+                seen.add(key)
+                res.append((labels, spec))
+    return res
+
+
+def _small_worker(chunk):
+    out = []
+    for labels, spec in chunk:
+        k = c08_key(spec)
+        if k is not None:
+            a = realize(spec, "phrase", both=False)
+            b = realize(spec, "dep", both=False)
+            out.append((labels, spec, k, a["err"] or a["text"], b["err"] or b["text"]))
+    return out
+
+
+def spec_features(spec):
+    """the features of a specification in the vocabulary of the small-scope atoms (for attribution of a disagreement
+    to a root)"""
+    f = set()
+    tc = TENSE_CLASS[spec["t"]]
+    f.add("T=" + tc)
+    s = spec.get("subj")
+    if s is None:
+        f.add("S=none")
+    elif s["k"] == "pro":
+        f.add("S=pro")
+        f.add("S.var=" + s.get("var", "je"))
+        f.add("S.pe=%d%s" % (s["pe"], s["n"]))
+        f.add("S.g=" + s["g"])
+    else:
+        f.add("S=np.pro" if s.get("pro") else "S=np")
+        f.add("S.pe=3" + s["n"])
+        f.add("S.g=" + s["g"])
+    f.add("V=" + verb_class(spec["verb"]))
+    ks = []
+    for c in spec["comps"]:
+        k, st = comp_kind(c), comp_style(c)
+        lab = "%s.%s" % (k, st)
+        ks.append(lab)
+        f.add("C=" + lab)
+        if c["k"] == "cl" and "c" in c:
+            f.add("C.%s.pe=%s" % (k, "12" if c["pe"] in (1, 2) else "3"))
+        elif c["k"] != "cl":
+            f.add("C.%s.g=%s" % (k, c["arg"]["g"]))
+            f.add("C.%s.n=%s" % (k, c["arg"]["n"]))
+    for i in range(len(ks)):
+        for j in range(i + 1, len(ks)):
+            f.add("C.ord=%s<%s" % (ks[i], ks[j]))
+    for k, v in (spec.get("typ") or {}).items():
+        if k == "neg":
+            f.add("Y=neg")
+        elif k == "mod":
+            f.add("Y=mod")
+            f.add("Y=mod=" + {"poss": "pouvoir", "perm": "pouvoir", "nece": "devoir", "obli": "devoir", "will": "vouloir"}.get(v, str(v)))
+        else:
+            f.add("Y=%s" % k)
+            f.add("Y=%s=%s" % (k, v))
+    return f
+
+
+GENERAL = {"dir.full.f": "dir.full", "dir.full.p": "dir.full", "dir.pro.f": "dir.pro", "dir.pro.p": "dir.pro",
+           "dir.cl3": "dir.cl1", "a.cl3": "a.cl1", "np.f": "np", "np.p": "np", "pro3f": None, "pro3p": None, "moi3s": None,
+           "pro2s": None, "moi1s": "pro1s", "neg=plus": "neg=True"}
+FAMILY = {"int=woi": "int=IND", "int=wai": "int=IND", "int=whe": "int=IND", "int=whn": "int=IND",
+          "int=wod": "int=OBJ", "int=wad": "int=OBJ", "int=wos": "int=SUBJ", "int=was": "int=SUBJ",
+          "a.full": "pp.full", "de.full": "pp.full", "loc.full": "pp.full", "oth.full": "pp.full",
+          "a.pro": "pp.clitic", "a.cl1": "pp.clitic", "a.cl3": "pp.clitic", "de.pro": "pp.clitic", "de.cl": "pp.clitic",
+          "loc.pro": "pp.clitic", "loc.cl": "pp.clitic",
+          "dir.full": "dir", "dir.pro": "dir", "dir.cl1": "dir", "dir.cl3": "dir", "dir.full.f": "dir.agr", "dir.full.p": "dir.agr",
+          "dir.pro.f": "dir.pro.agr", "dir.pro.p": "dir.pro.agr", "pc": "compound", "bp": "compound",
+          "pro1s": "pro12", "pro2s": "pro12", "moi1s": "pro12", "pro3p": "subj.agr", "np.p": "np.agr", "pro3f": "subj.agr",
+          "np.f": "np.agr"}
+
+
+def family_signature(labels, klass):
+    """the signature of a root: its atoms abstracted to their family + the class of the first difference"""
+    iscomp = lambda l: l.split(".")[0] in ("dir", "a", "de", "loc", "oth")
+    fam = sorted(FAMILY.get(l, l) for l in labels if not iscomp(l)) + [FAMILY.get(l, l) for l in labels if iscomp(l)]
+    klass = re.sub(r"^(form|lemma|link):.*$", r"\1", klass)
+    klass = re.sub(r"Pro\.(dat|acc|y|en)", "Pro.clitic", klass)
+    klass = re.sub(r"V\.(main|modal|être|avoir)\.\w+", r"V.\1", klass)
+    return "fr|phrase≠dep|root|%s|%s" % ("+".join(fam), klass)
+
+
+BASE_FEATURES = None
+
+
+def root_requirements(spec):
+    """what a larger specification must share with a root to be explained by it: every feature of the root that
+    the base clause does not have, plus the kind of subject"""
+    global BASE_FEATURES
+    if BASE_FEATURES is None:
+        BASE_FEATURES = spec_features({"subj": dict(BASE_SUBJ), "verb": verb_entry("manger"), "t": "p", "comps": [], "typ": {}})
+    f = spec_features(spec)
+    req = set(x for x in f if x not in BASE_FEATURES)
+    req |= set(x for x in f if x.startswith("S=") or x.startswith("C=") or x.startswith("C.ord="))
+    # person/number/gender details only matter when they differ from the base
+    return req
+
+
+def c08_roots(ctx, maxk=3):
+    """exhaustive small-scope exploration on the real library: {signature: (spec, class, phrase text, dep text)} of
+    the MINIMAL disagreeing specifications (no disagreeing specification with fewer of the same atoms)"""
+    import multiprocessing
+    # agreement variants of the subject (feminine / plural) are explored with every atom in the thorough tier, with
+    # the participle-bearing and non-finite tenses only in the quick tier
+    specs = [x for b in BASES for x in small_specs(maxk, b, need_tense=(ctx.tier != "thorough" and b not in ("pro", "np")))]
+    ctx.notes["c08fr_small_scope_specs"] = len(specs)
+    chunk = max(50, len(specs) // 64)
+    jobs = [specs[i:i + chunk] for i in range(0, len(specs), chunk)]
+    mpctx = multiprocessing.get_context("fork")
+    pool = mpctx.Pool(16)
+    try:
+        found = [x for r in pool.imap_unordered(_small_worker, jobs) for x in r]
+    finally:
+        pool.close()
+        pool.join()
+    ctx.cov["evaluations"] += 2 * len(specs)
+    bad = {frozenset(l): (l, sp, k, a, b) for (l, sp, k, a, b) in found}
+    bad_seq = {}
+    for (l, sp, k, a, b) in found:
+        bad_seq.setdefault(frozenset(l), []).append(l)
+    roots = {}
+    for fs, (l, sp, k, a, b) in sorted(bad.items(), key=lambda x: (len(x[0]), sorted(x[0]))):
+        minimal = True
+        for r in range(len(l)):
+            for sub in itertools.combinations(l, r):
+                if [x for x in l if x in BASES] != [x for x in sub if x in BASES]:
+                    continue        # minimality inside the family of the same base clause
+                if frozenset(sub) in bad:
+                    minimal = False
+                    break
+            if not minimal:
+                break
+        if minimal:
+            # a gender / number / person variant of a disagreeing clause is not a root of its own
+            for i, lab in enumerate(l):
+                g = GENERAL.get(lab, lab)
+                if lab in BASES:
+                    gen_base = {"pro3f": None, "pro3p": None, "np.f": "np", "np.p": "np"}.get(lab, lab)
+                    if gen_base != lab:
+                        alt = [x for j, x in enumerate(l) if j != i] + ([gen_base] if gen_base else [])
+                        if frozenset(alt) in bad:
+                            minimal = False
+                            break
+                    continue
+                if g != lab and not (g is None and any(x in BASES for x in l)):
+                    alt = [x for j, x in enumerate(l) if j != i] + ([g] if g else [])
+                    if frozenset(alt) in bad:
+                        minimal = False
+                        break
+        if minimal:
+            for (l2, sp2, k2, a2, b2) in [x for x in found if frozenset(x[0]) == fs]:
+                roots["+".join(l2) if l2 else "base"] = (sp2, k2, a2, b2, family_signature(l2, k2))
+    ctx.notes["c08fr_small_scope_disagreeing"] = len(found)
+    return roots
+
+
+# --------------------------------------------------------------------------------------------- the sweep
+
+def _is_trivial(spec):
+    return (not spec.get("typ") and spec["t"] not in TENSES_COMPOUND
+            and all(c["k"] != "cl" and not c["arg"].get("pro") for c in spec["comps"]))
+
+
+def _worker(args):
+    import hashlib
+    specs, driver, want = args
+    items = []
+    for sp in specs:
+        items.append((sp, "phrase"))
+        items.append((sp, "dep"))
+    model = run_model(items, driver)
+    res = {"n": 0, "digests": set(), "diffs": [], "c05": {}, "c08": {}, "dist": {}, "samples": [], "nontrivial": 0,
+           "errs": {}, "elision_changed_tokens": 0}
+
+    def bump(k):
+        res["dist"][k] = res["dist"].get(k, 0) + 1
+    for i, sp in enumerate(specs):
+        answers = {}
+        for j, nota in enumerate(("phrase", "dep")):
+            a = realize(sp, nota)
+            answers[nota] = a
+            m = model[2 * i + j]
+            ia = impl_answer(a)
+            res["n"] += 1
+            if core.canon(m) != core.canon(ia):
+                if len(res["diffs"]) < 10:
+                    res["diffs"].append({"line": {"op": "clause", "spec": sp, "nota": nota}, "model": m, "impl": ia})
+                else:
+                    res["dist"]["diffs_truncated"] = res["dist"].get("diffs_truncated", 0) + 1
+            if a["err"]:
+                res["errs"][a["err"]] = res["errs"].get(a["err"], 0) + 1
+            elif [(t[0], t[1]) for t in a["toks"]] != [(t[0], t[1]) for t in a["etoks"]]:
+                res["elision_changed_tokens"] += 1
+            if not _is_trivial(sp):
+                res["digests"].add(hashlib.md5(core.canon([abstract(sp), nota, ia]).encode()).digest()[:8])
+            if len(res["samples"]) < 1:
+                res["samples"].append({"line": {"op": "clause", "spec": sp, "nota": nota}, "answer": dict(ia, text=a["text"])})
+        typ = sp.get("typ") or {}
+        bump("tense:" + sp["t"])
+        bump("ncomps:%d" % len(sp["comps"]))
+        bump("npro:%d" % len([c for c in sp["comps"] if comp_style(c) != "full"]))
+        for k in typ:
+            bump("typ:" + k)
+        bump("subj:" + ("none" if sp["subj"] is None else sp["subj"]["k"]))
+        if "c05" in want:
+            for (cl, det, notas) in c05_keys(sp, answers):
+                extra = ""
+                if cl == "clitic_order" and ">" in det:
+                    extra = ":input-" + ("canonical" if input_order_canonical(sp) else "shuffled")
+                e = res["c05"].setdefault((cl, det + extra, notas), [0, []])
+                e[0] += 1
+                e[1].append(sp)
+                e[1].sort(key=lambda x: len(core.canon(x)))
+                del e[1][3:]
+        if "c08" in want:
+            k = c08_key(sp, answers)
+            if k is not None:
+                e = res["c08"].setdefault(k, [0, []])
+                e[0] += 1
+                e[1].append(sp)
+                e[1].sort(key=lambda x: len(core.canon(x)))
+                del e[1][4:]
+    return res
+
+
+def input_order_canonical(spec):
+    """are the cliticizable complements given in the canonical order dir < à < loc < de ?"""
+    order = {"dir": 2, "a": 3, "loc": 4, "de": 5}
+    ranks = []
+    for c in spec["comps"]:
+        if comp_style(c) == "full":
+            continue
+        k = comp_kind(c)
+        if k == "oth":
+            continue
+        r = order[k]
+        if c["k"] == "cl" and c.get("pe") in (1, 2):
+            r = 1
+        ranks.append(r)
+    return ranks == sorted(ranks)
+
+
+def sweep(ctx, specs, want=("c05",), driver="drv_clausefr"):
+    """model vs real library on every specification in both notations (multiprocessing), direct oracles;
+    returns the merged failure tables {key: [count, smallest specs]}"""
+    import multiprocessing
+    nproc = min(16, max(1, (len(specs) + 199) // 200))
+    chunk = max(50, min(4000, (len(specs) + nproc * 4 - 1) // (nproc * 4)))
+    jobs = [(specs[i:i + chunk], driver, tuple(want)) for i in range(0, len(specs), chunk)]
+    merged = {"c05": {}, "c08": {}, "dist": {}, "errs": {}, "elision_changed_tokens": 0}
+    if nproc == 1:
+        results = map(_worker, jobs)
+    else:
+        mpctx = multiprocessing.get_context("fork")
+        pool = mpctx.Pool(nproc)
+        results = pool.imap_unordered(_worker, jobs)
+    try:
+        for r in results:
+            ctx.cov["evaluations"] += r["n"]
+            ctx.cov["traces_validated_against_impl"] += r["n"]
+            ctx.distinct |= r["digests"]
+            for d in r["diffs"]:
+                ctx.diff(d["line"], d["model"], d["impl"])
+            for s in r["samples"]:
+                if len(ctx.cov["samples"]) < 6:
+                    ctx.cov["samples"].append(s)
+            for k, v in r["dist"].items():
+                merged["dist"][k] = merged["dist"].get(k, 0) + v
+            for k, v in r["errs"].items():
+                merged["errs"][k] = merged["errs"].get(k, 0) + v
+            merged["elision_changed_tokens"] += r["elision_changed_tokens"]
+            for tab in ("c05", "c08"):
+                for k, (cnt, reps) in r[tab].items():
+                    e = merged[tab].setdefault(k, [0, []])
+                    e[0] += cnt
+                    e[1].extend(reps)
+                    e[1].sort(key=lambda x: len(core.canon(x)))
+                    del e[1][3:]
+    finally:
+        if nproc > 1:
+            pool.close()
+            pool.join()
+    return merged
+
+
+def report_c05(ctx, merged):
+    """one shrunk failing input per (clause, detail, notations) class -> ctx.fail(signature, …)"""
+    table = {}
+    for (cl, det, nota), (cnt, reps) in sorted(merged["c05"].items()):
+        base = det.split(":input-")[0]
+        for sp in reps[:2]:
+            sig, small, notas = c05_signature(sp, cl, base, nota)
+            if ":input-canonical" in det:
+                sig += "|input-order=canonical"
+            texts = {n: realize(small, n, both=False).get("text") for n in notas.split("+")}
+            ctx.fail(sig, {"op": "clause", "spec": small, "notas": notas, "clause": cl, "detail": base},
+                     {"violates": cl, "detail": base, "got": texts, "failing_inputs_in_run": cnt})
+            table[sig] = table.get(sig, 0) + cnt
+    ctx.notes["c05_failure_classes"] = {"%s:%s:%s" % k: v[0] for k, v in sorted(merged["c05"].items())}
+    return table
+
+
+def c08_fr(ctx, specs=None, merged=None, prepare=False):
+    """French half of C08.  (1) exhaustive small-scope exploration on the real library (every clause within three
+    features of « il mange », both notations): each MINIMAL disagreeing clause is a root, reported under its own
+    signature; (2) correspondence model vs real library + the direct oracle `phrase text == dependency text` on the
+    seeded sweep: a disagreeing clause that contains a root is attributed to it, any other is shrunk and reported.
+    `prepare`: regenerate Gen/ClauseFrConsts, build Props/C08Fr + drv_clausefr and audit the axioms of the French
+    theorems (for a caller whose META names another driver / Props module)."""
+    if prepare:
+        from harness import translate
+        try:
+            translate.run_all(only=["clausefr"])
+        except translate.TranslateError as e:
+            ctx.proof_failures.append({"theorem": "translator:clausefr", "msg": str(e)[:500]})
+        ok, _log, fails = core.lake_build(["Pyrealb.Props.C08Fr", "drv_clausefr"])
+        if not ok:
+            ctx.proof_failures.extend(fails)
+            ok2, _l2, _f2 = core.lake_build(["drv_clausefr"])
+            if not ok2:
+                ctx.proof_failures.append({"theorem": "driver", "msg": "drv_clausefr could not be built"})
+                return None
+        else:
+            axioms, bad = core.audit_axioms("C08Fr")
+            ctx.theorems.update(axioms)
+            for b in bad:
+                ctx.proof_failures.append({"theorem": b, "msg": "axiom audit"})
+    roots = c08_roots(ctx)
+    reqs = []
+    fams = {}
+    for name, (sp, k, a, b, sig) in sorted(roots.items()):
+        fams.setdefault(sig, []).append(name)
+        reqs.append((sig, root_requirements(sp)))
+    for name, (sp, k, a, b, sig) in sorted(roots.items(), key=lambda x: (len(core.canon(x[1][0])), x[0])):
+        if fams[sig] and fams[sig][0] is not None:
+            ctx.fail(sig, {"op": "clause", "spec": sp}, {"violates": "notations_agree_fr", "class": k, "got": {"phrase": a, "dep": b},
+                                                         "roots_of_this_family": sorted(fams[sig])})
+            fams[sig] = [None]
+    ctx.notes["c08fr_roots"] = len(roots)
+    if merged is None:
+        if specs is None:
+            specs = gen_specs(ctx.rng, ctx.tier)
+        merged = sweep(ctx, specs, want=("c08",))
+    attributed = {}
+    unexplained = 0
+    for key, (cnt, reps) in sorted(merged["c08"].items()):
+        for sp in reps:
+            f = spec_features(sp)
+            hit = [sig for sig, req in reqs if req <= f]
+            if hit:
+                attributed[hit[0]] = attributed.get(hit[0], 0) + 1
+                continue
+            unexplained += 1
+            sig, small = c08_signature(sp)
+            f2 = spec_features(small)
+            hit = [s2 for s2, req in reqs if req <= f2]
+            if hit:
+                attributed[hit[0]] = attributed.get(hit[0], 0) + 1
+                continue
+            texts = {n: (realize(small, n, both=False).get("err") or realize(small, n, both=False).get("text")) for n in ("phrase", "dep")}
+            ctx.fail(sig, {"op": "clause", "spec": small}, {"violates": "notations_agree_fr", "class": key, "got": texts,
+                                                            "failing_inputs_in_run": cnt})
+    ctx.notes["c08fr_disagreement_classes"] = {k: v[0] for k, v in sorted(merged["c08"].items())}
+    ctx.notes["c08fr_attributed_representatives"] = attributed
+    ctx.notes["c08fr_representatives_without_root"] = unexplained
+    ctx.notes["c08fr_distribution"] = merged["dist"]
+    return merged
